@@ -34,6 +34,7 @@ type entryT struct {
 	Name   []int `json:"name"`
 	Old    []int `json:"old"`
 	Update bool  `json:"update"` // a failing plain cmp names this entry
+	Must   bool  `json:"must"`   // ... and it is the last entry of that name (the one on disk): it has to hold the actual content
 	Want   []int `json:"want"`   // what the statement wants it to hold afterwards
 	Alt    []int `json:"alt"`    // tolerated instead for a content that cannot be quoted as it is
 }
@@ -207,6 +208,9 @@ func (r *runner) describe(c *caseT) string {
 	}
 	if c.Variant == "stop" {
 		d += "; the script ends with a stop line"
+	}
+	if c.Variant == "dup" {
+		d += "; a stale second entry named like the first golden stands in front"
 	}
 	return d
 }
@@ -383,7 +387,7 @@ func (r *runner) runCase(idx int, c *caseT) {
 		if parsedOK && c.Updated > 0 {
 			a := txtar.Parse(o1.After)
 			for i, e := range c.Entries {
-				if e.Update && !bytes.Equal(a.Files[i].Data, vutil.Bytes(e.Want)) {
+				if e.Update && e.Must && !bytes.Equal(a.Files[i].Data, vutil.Bytes(e.Want)) {
 					j.violate("updated-entry-not-holding-actual", "", fmt.Sprintf("entry %q holds %q after the run, the actual content is stored as %q",
 						a.Files[i].Name, a.Files[i].Data, vutil.Bytes(e.Want)), det1)
 				}
